@@ -365,7 +365,9 @@ pub fn exec_repo_op(w: &mut World, op: &GitOp, model_after: &RGit) -> Result<(),
             let c = model_after.wt.get(path).ok_or("model lost path")?;
             write_managed(w, path, c)?;
             if let GitOp::EditOld { .. } = op {
-                set_old_mtime(&w.root.join(path))?;
+                // old, but never the same instant twice for one size (git's stat cache cannot tell such
+                // files apart; that is git's documented limit, not a subject here)
+                set_mtime(&w.root.join(path), 1_000_000_000 + (crate::prng::hash_str(c) % 100_000_000) as i64)?;
             }
             Ok(())
         }
@@ -457,9 +459,13 @@ pub fn write_managed(w: &World, rel: &str, content: &str) -> Result<(), String> 
 }
 
 pub fn set_old_mtime(p: &std::path::Path) -> Result<(), String> {
+    set_mtime(p, 1_000_000_000)
+}
+
+pub fn set_mtime(p: &std::path::Path, secs: i64) -> Result<(), String> {
     use std::os::unix::ffi::OsStrExt;
     let c = std::ffi::CString::new(p.as_os_str().as_bytes()).map_err(|e| e.to_string())?;
-    let t = libc::timespec { tv_sec: 1_000_000_000, tv_nsec: 0 };
+    let t = libc::timespec { tv_sec: secs, tv_nsec: 0 };
     let times = [t, t];
     let r = unsafe { libc::utimensat(libc::AT_FDCWD, c.as_ptr(), times.as_ptr(), 0) };
     if r != 0 {
